@@ -106,6 +106,51 @@ def serverRun (c : SrvCfg) (r : Registry) : List SOp → List InitOut
   | .reg o :: ops => serverRun c (r.apply o) ops
   | .init v :: ops => answerInit c r v :: serverRun c r ops
 
+/-! ### server: concurrent handshakes (one shared capability map per server)
+
+`updateCapabilities` stores a map into the shared field `m.capabilities`; `buildInitializeResponse` of the same handshake
+reads the field afterwards — but other handshakes run their `updateCapabilities` in between.  What a handshake reads is
+therefore the *last store* performed by anybody since (and including) its own last store.  The stores one run of
+`updateCapabilities` performs are determined by the function's shape, regenerated from the source. -/
+
+/-- Shape of `updateCapabilities` / `buildInitializeResponse` (regenerated: `Mcp.Gen.updateCapabilitiesShape`). -/
+structure UpdShape where
+  /-- assignments `m.capabilities = …` in updateCapabilities -/
+  assigns : Nat
+  /-- in-place writes (`m.capabilities[k] = …`, `delete`) in updateCapabilities -/
+  mutations : Nat
+  /-- uses that let the map escape (alias, argument, address) in updateCapabilities -/
+  escapes : Nat
+  /-- `m.mu.Lock()` calls in updateCapabilities -/
+  locks : Nat
+  /-- every use of the field in updateCapabilities is a top-level statement of its single critical section, the store unconditional -/
+  inCrit : Bool
+  /-- buildInitializeResponse reads the field inside its (read-)locked section and writes nothing -/
+  readLocked : Bool
+  /-- uses of the map by any other code -/
+  others : Nat
+  deriving Repr, DecidableEq
+
+/-- One store of the finished map, in the function's only critical section; the reader locks; nobody else is involved. -/
+def UpdShape.ok (s : UpdShape) : Bool :=
+  s.assigns == 1 && s.mutations == 0 && s.escapes == 0 && s.locks == 1 && s.inCrit && s.readLocked && s.others == 0
+
+/-- The map before the registries have been consulted: tools only. -/
+def baseCaps : Caps := { tools := true, prompts := false, resources := false }
+
+/-- The values one run of `updateCapabilities` makes visible to other handshakes, in order, on a server whose registry
+    is `r`: the last one is the finished map (that much every sequential run checks); every additional store, in-place
+    write or escape makes an unfinished map visible first — taken as the worst case, the base map. -/
+def storesOf (s : UpdShape) (r : Registry) : List Caps :=
+  if s.ok then [capabilities r] else [baseCaps, capabilities r]
+
+/-- What `buildInitializeResponse` reads: the last store since the handshake's own (finished) store `own`;
+    `others` = the stores other handshakes performed in between, oldest first. -/
+def readAfter (own : Caps) (others : List Caps) : Caps :=
+  match others.getLast? with
+  | none => own
+  | some x => x
+
 /-! ## client -/
 
 inductive Kind | streamable | sse | stdio
